@@ -36,6 +36,16 @@ PUBLISHED = {
     "TraitObjArc": ("cglue::trait_group::CGlueTraitObj", [("vtbl", PTR), ("container", ("struct", "cglue::trait_group::CGlueObjContainer"))]),
     "Container": ("cglue::trait_group::CGlueObjContainer", [("instance", ("struct", "cglue::boxed::CBox")), ("context", "zst"), ("ret_tmp", "zst")]),
 }
+# parameter kinds of the functions stored in the runtime types, as the published C declarations have them: a foreign caller passes
+# exactly these (a struct by value instead of by pointer, or the lengths in another order, is a different calling convention)
+FN_PARAMS = {
+    ("cglue::boxed::CBox", "drop_fn"): [PTR],
+    ("cglue::boxed::CSliceBox", "drop_fn"): [PTR],
+    ("cglue::arc::CArc", "clone_fn"): [PTR], ("cglue::arc::CArc", "drop_fn"): [PTR],
+    ("cglue::arc::CArcSome", "clone_fn"): [PTR], ("cglue::arc::CArcSome", "drop_fn"): [PTR],
+    ("cglue::vec::CVec", "drop_fn"): [PTR, USZ, USZ], ("cglue::vec::CVec", "reserve_fn"): [PTR, USZ],
+    ("cglue::iter::CIterator", "func"): [PTR, PTR],
+}
 ENUMS = {
     "COption_u8": ("cglue::option::COption", [("None", 0), ("Some", 1)]),
     "COption_u64": ("cglue::option::COption", [("None", 0), ("Some", 1)]),
@@ -83,6 +93,14 @@ def kind_of(sh):
     if k == "tuple" and inner.get("n") == 0:
         return "zst"
     return k
+
+
+def fld_shape(sh, name):
+    for v in sh.get("variants", [])[:1]:
+        for f in v["fields"]:
+            if f["name"] == name:
+                return f["shape"]
+    return {}
 
 
 def c_offsets(fields):
@@ -202,6 +220,11 @@ def run(tier):
                     and str(got[3]).startswith("C")
             else:
                 ok = got == k
+            if (path, n) in FN_PARAMS:
+                inner, _ = unwrap_option(f["shape"])
+                got_params = [kind_of(x) for x in inner.get("inputs", [])] if inner.get("k") == "fnptr" else None
+                ck.ob("P-fn-param-kinds", "%s.%s" % (key, n), got_params == FN_PARAMS[(path, n)],
+                      "%s.%s takes %s; the published declaration passes %s" % (path, n, got_params, FN_PARAMS[(path, n)]), sample={"field": n, "params": FN_PARAMS[(path, n)]})
             ck.ob("P-field-kind", "%s.%s" % (key, n), ok,
                   "%s.%s has C kind %s, published %s (%s)" % (path, n, got, k, f["shape"].get("ty")),
                   sample={"field": path + "." + n, "kind": str(got)})
@@ -274,6 +297,11 @@ def run(tier):
                     elif ck_ == PTR and sh.get("k") not in ("param", "alias"):
                         ck.ob("H-kind", "header/%s.%s" % (cname, n), got == PTR, "header %s.%s is a pointer; Rust field is %s" % (cname, n, f["ty"]))
         ck.floor("header structs matched to Rust ADTs", n_hdr, 18)
+
+    # ---- (2b) what the stored functions of a vector do with their positional parameters ---------------------------------------
+    # the published contract is drop_fn(data, len, capacity) / reserve_fn(vec, additional): the Rust side must read them in that order
+    from rules import c11
+    c11.check_stored_fn_positions(ck, cl)
 
     # ---- (3) cglue-bindgen hard-coded patterns ------------------------------------------------------------
     bf = facts.cfg_bindgen()
